@@ -1100,8 +1100,18 @@ class HistRunner {
     if (sched_on) sched_quiesce();
     auto before = snapshot_dir_bytes(dir);
     opts.build(cfg);
+    // a copy that fails after it has taken the source lock (destination already exists) must release the lock again
+    // and leave the source untouched
+    if (backup_seq % 2 == 0) {
+      mkdir(to.c_str(), 0755);
+      rc = ldb_copy(dir.c_str(), to.c_str(), &opts.opt);
+      if (rc == LDB_OK) VF_FAIL("C20", "ldb_copy onto an existing directory succeeded");
+      if (snapshot_dir_bytes(dir) != before) VF_FAIL("C20", "a failed ldb_copy modified the source directory");
+      rm_rf(to);
+      rep->count("failed_copies");
+    }
     rc = ldb_copy(dir.c_str(), to.c_str(), &opts.opt);
-    if (rc != LDB_OK) VF_FAIL("C20", "ldb_copy of a closed database returns %d", rc);
+    if (rc != LDB_OK) VF_FAIL("C20", "ldb_copy of a closed database returns %d%s", rc, rc == 37 ? " (no locks available: an earlier failed copy did not release the source lock)" : "");
     if (snapshot_dir_bytes(dir) != before) VF_FAIL("C20", "ldb_copy modified the source directory");
     compare_db_with(to, model, "copy of the closed database", true);
     if (snapshot_dir_bytes(dir) != before) VF_FAIL("C20", "writing into the copy modified the source directory");
